@@ -214,6 +214,12 @@ def gen_configs(seed: int, n: int, nx_max: int, families: str = "all") -> list[d
             base = dict(cfgs[j])
             base.update({"nx": nxf, "nt": 12, "grid": "random", "tend": 0.5})
             cfgs[-1 - j] = base
+    # the node count is an integer, of whatever integer type the caller has at hand (a Python int, or a numpy scalar taken from an
+    # array / a down-cast pandas column): int16 holds 3..400, uint8 the counts up to 255
+    for i, c in enumerate(cfgs):
+        t = {1: "int16", 3: "int32", 4: "uint16", 6: "uint8"}.get(i % 8)
+        if t and (t != "uint8" or c["nx"] <= 255) and not c.get("repress"):
+            c["nx_dtype"] = t
     return cfgs
 
 
